@@ -73,8 +73,8 @@ active, the old blobs of updated nodes and the blobs of removed nodes were delet
 were unregistered only after their blobs were gone. For every write set, state, transaction id, retry cap. -/
 theorem C11_ok_no_orphans {s0 : State} {w : WS} {fresh0 : List (UUID × UUID)}
     (pre : Pre s0 w fresh0) (pre2 : Pre2 s0 w fresh0) (hv : w.values = []) (h0 : NoOrphan s0)
-    (tid : Tid) (n : Nat) (r2 : Run)
-    (hok : commit w n { s := s0, tid := tid, fault := none, fresh := fresh0 } = (.ok, r2)) :
+    {cs0 : Step} (tid : Tid) (n : Nat) (r2 : Run)
+    (hok : commit w n { s := s0, tid := tid, fault := none, fresh := fresh0, cs := cs0 } = (.ok, r2)) :
     NoOrphan r2.s :=
   commit_ok_no_orphans pre pre2 hv h0 tid n r2 hok
 
@@ -82,16 +82,16 @@ theorem C11_ok_no_orphans {s0 : State} {w : WS} {fresh0 : List (UUID × UUID)}
 commit is `V` plus the value blobs written, minus the ones the write set made obsolete (those are deleted). -/
 theorem C11_ok_no_orphans_values {s0 : State} {w : WS} {fresh0 : List (UUID × UUID)}
     (pre : Pre s0 w fresh0) (pre2 : Pre2 s0 w fresh0) (V : List UUID) (h0 : NoOrphanV V s0)
-    (tid : Tid) (n : Nat) (r2 : Run)
-    (hok : commit w n { s := s0, tid := tid, fault := none, fresh := fresh0 } = (.ok, r2)) :
+    {cs0 : Step} (tid : Tid) (n : Nat) (r2 : Run)
+    (hok : commit w n { s := s0, tid := tid, fault := none, fresh := fresh0, cs := cs0 } = (.ok, r2)) :
     NoOrphanV ((V ++ w.values).filter (fun b => !w.obsoleteValues.contains b)) r2.s :=
   commit_ok_no_orphans_values pre pre2 V h0 tid n r2 hok
 
 /-- the two facts behind it: exceptions only grow by the written value blobs, and every obsolete blob is gone -/
 theorem C11_ok_no_orphans_gen {s0 : State} {w : WS} {fresh0 : List (UUID × UUID)}
     (pre : Pre s0 w fresh0) (pre2 : Pre2 s0 w fresh0) (X0 : List UUID) (h0 : BI X0 s0)
-    (tid : Tid) (n : Nat) (r2 : Run)
-    (hok : commit w n { s := s0, tid := tid, fault := none, fresh := fresh0 } = (.ok, r2)) :
+    {cs0 : Step} (tid : Tid) (n : Nat) (r2 : Run)
+    (hok : commit w n { s := s0, tid := tid, fault := none, fresh := fresh0, cs := cs0 } = (.ok, r2)) :
     BI (X0 ++ w.values) r2.s ∧ ∀ b ∈ w.obsoleteValues, r2.s.blob b = false :=
   commit_ok_no_orphans_gen pre pre2 X0 h0 tid n r2 hok
 
@@ -99,8 +99,8 @@ theorem C11_ok_no_orphans_gen {s0 : State} {w : WS} {fresh0 : List (UUID × UUID
 registered any more (their handles are unregistered after their blobs were deleted). -/
 theorem C11_ok_cleanup_complete {s0 : State} {w : WS} {fresh0 : List (UUID × UUID)}
     (pre : Pre s0 w fresh0) (pre2 : Pre2 s0 w fresh0) (X0 : List UUID) (h0 : BI X0 s0)
-    (tid : Tid) (n : Nat) (r2 : Run)
-    (hok : commit w n { s := s0, tid := tid, fault := none, fresh := fresh0 } = (.ok, r2)) :
+    {cs0 : Step} (tid : Tid) (n : Nat) (r2 : Run)
+    (hok : commit w n { s := s0, tid := tid, fault := none, fresh := fresh0, cs := cs0 } = (.ok, r2)) :
     BI (X0 ++ w.values) r2.s ∧ (∀ b ∈ w.obsoleteValues, r2.s.blob b = false) ∧
       (w.hasTracked = true → ∀ i ∈ w.removed.map (·.1), r2.s.reg i = none) :=
   commit_ok_cleanup_complete pre pre2 X0 h0 tid n r2 hok
@@ -108,9 +108,9 @@ theorem C11_ok_cleanup_complete {s0 : State} {w : WS} {fresh0 : List (UUID × UU
 /-- **C11 (success, logs).** A commit that returns ok in a fault-free run leaves neither its transaction-log file
 (the cleanup's last call removes it) nor its priority-log file (written only when there is something to flip, removed
 right after the flip) — for every write set and state in which the transaction had no priority log to begin with. -/
-theorem C11_ok_no_logs {s0 : State} {w : WS} {fresh0 : List (UUID × UUID)} (tid : Tid) (n : Nat) (r2 : Run)
+theorem C11_ok_no_logs {s0 : State} {w : WS} {fresh0 : List (UUID × UUID)} {cs0 : Step} (tid : Tid) (n : Nat) (r2 : Run)
     (hp0 : s0.plog tid = false)
-    (hok : commit w n { s := s0, tid := tid, fault := none, fresh := fresh0 } = (.ok, r2)) :
+    (hok : commit w n { s := s0, tid := tid, fault := none, fresh := fresh0, cs := cs0 } = (.ok, r2)) :
     r2.s.tlog tid = false ∧ r2.s.plog tid = false :=
   commit_ok_no_logs tid n r2 hp0 hok
 
@@ -118,8 +118,8 @@ theorem C11_ok_no_logs {s0 : State} {w : WS} {fresh0 : List (UUID × UUID)} (tid
 no orphaned blob, no registry entry of a removed node, no obsolete blob, no log file. -/
 theorem C11_ok_leaves_nothing {s0 : State} {w : WS} {fresh0 : List (UUID × UUID)}
     (pre : Pre s0 w fresh0) (pre2 : Pre2 s0 w fresh0) (hv : w.values = []) (h0 : NoOrphan s0)
-    (tid : Tid) (n : Nat) (r2 : Run) (hp0 : s0.plog tid = false)
-    (hok : commit w n { s := s0, tid := tid, fault := none, fresh := fresh0 } = (.ok, r2)) :
+    {cs0 : Step} (tid : Tid) (n : Nat) (r2 : Run) (hp0 : s0.plog tid = false)
+    (hok : commit w n { s := s0, tid := tid, fault := none, fresh := fresh0, cs := cs0 } = (.ok, r2)) :
     NoOrphan r2.s ∧ (w.hasTracked = true → ∀ i ∈ w.removed.map (·.1), r2.s.reg i = none) ∧
       (∀ b ∈ w.obsoleteValues, r2.s.blob b = false) ∧ r2.s.tlog tid = false ∧ r2.s.plog tid = false := by
   obtain ⟨_, b, c⟩ := C11_ok_cleanup_complete pre pre2 [] (BI.nil.mpr h0) tid n r2 hok
@@ -155,9 +155,9 @@ theorem pre2_witness : Pre2 Witness.s0 Witness.wSplit [(1, 9)] := by
 
 /-- the same theorem with the run written out (no pair equation to check on a concrete run) -/
 theorem C11_ok_no_orphans_run {s0 : State} {w : WS} {fresh0 : List (UUID × UUID)}
-    (pre : Pre s0 w fresh0) (pre2 : Pre2 s0 w fresh0) (hv : w.values = []) (h0 : NoOrphan s0) (tid : Tid) (n : Nat)
-    (hok : (commit w n { s := s0, tid := tid, fault := none, fresh := fresh0 }).1 = .ok) :
-    NoOrphan (commit w n { s := s0, tid := tid, fault := none, fresh := fresh0 }).2.s :=
+    (pre : Pre s0 w fresh0) (pre2 : Pre2 s0 w fresh0) (hv : w.values = []) (h0 : NoOrphan s0) {cs0 : Step} (tid : Tid) (n : Nat)
+    (hok : (commit w n { s := s0, tid := tid, fault := none, fresh := fresh0, cs := cs0 }).1 = .ok) :
+    NoOrphan (commit w n { s := s0, tid := tid, fault := none, fresh := fresh0, cs := cs0 }).2.s :=
   C11_ok_no_orphans pre pre2 hv h0 tid n _ (Prod.ext hok rfl)
 
 theorem witness_commit_ok :
@@ -200,12 +200,12 @@ theorem pre_wRem : Pre Witness.s0 Witness.wRem [] ∧ Pre2 Witness.s0 Witness.wR
   · intro p hp; cases hp
 
 theorem C11_ok_cleanup_complete_run {s0 : State} {w : WS} {fresh0 : List (UUID × UUID)}
-    (pre : Pre s0 w fresh0) (pre2 : Pre2 s0 w fresh0) (X0 : List UUID) (h0 : BI X0 s0) (tid : Tid) (n : Nat)
-    (hok : (commit w n { s := s0, tid := tid, fault := none, fresh := fresh0 }).1 = .ok) :
-    BI (X0 ++ w.values) (commit w n { s := s0, tid := tid, fault := none, fresh := fresh0 }).2.s ∧
-      (∀ b ∈ w.obsoleteValues, (commit w n { s := s0, tid := tid, fault := none, fresh := fresh0 }).2.s.blob b = false) ∧
+    (pre : Pre s0 w fresh0) (pre2 : Pre2 s0 w fresh0) (X0 : List UUID) (h0 : BI X0 s0) {cs0 : Step} (tid : Tid) (n : Nat)
+    (hok : (commit w n { s := s0, tid := tid, fault := none, fresh := fresh0, cs := cs0 }).1 = .ok) :
+    BI (X0 ++ w.values) (commit w n { s := s0, tid := tid, fault := none, fresh := fresh0, cs := cs0 }).2.s ∧
+      (∀ b ∈ w.obsoleteValues, (commit w n { s := s0, tid := tid, fault := none, fresh := fresh0, cs := cs0 }).2.s.blob b = false) ∧
       (w.hasTracked = true → ∀ i ∈ w.removed.map (·.1),
-        (commit w n { s := s0, tid := tid, fault := none, fresh := fresh0 }).2.s.reg i = none) :=
+        (commit w n { s := s0, tid := tid, fault := none, fresh := fresh0, cs := cs0 }).2.s.reg i = none) :=
   C11_ok_cleanup_complete pre pre2 X0 h0 tid n _ (Prod.ext hok rfl)
 
 theorem witness_rem_commit_ok :
